@@ -100,7 +100,8 @@ package redisemu
 //@ requires rd != nil
 //@ requires [C08,C16] locked: held
 //@ requires free wf: dictRepr(rd)
-//@ ensures [C04,C05] found: exists == rd.vdom[key]
+//@ ensures [C04,C05] found.yes: exists ==> rd.vdom[key]
+//@ ensures [C04,C05] found.no: !exists ==> !rd.vdom[key]
 //@ ensures [C04,C05] value: exists ==> value == rd.vval[key]
 //@ ensures [C04] absent: !exists ==> value == nil
 // count is the number of present keys (each mutator is verified to change count by exactly the change of vdom; the global equality is their inductive consequence and is assumed here)
